@@ -16,7 +16,7 @@
     observer on every run); [ValidB] says the bound consists of valid cell ids. *)
 From Coq Require Import ZArith List Bool.
 From Geo Require Import Base.GoPrim Gen.CellIDCov Model.Coverer.
-From Geo Require Import Proofs.C05_CellFacts Proofs.C05_CellUnion Proofs.C05_Coverer Proofs.C05_Fast Proofs.C05_Main.
+From Geo Require Import Proofs.C05_CellFacts Proofs.C05_CellUnion Proofs.C05_Coverer Proofs.C05_Fast Proofs.C05_Main Proofs.C05_CuRegion.
 Import ListNotations.
 Local Open Scope Z_scope.
 
@@ -83,6 +83,48 @@ Theorem coverer_terminates : forall intersects contains bound fallback rc,
   (exists r, FastCovering bound fallback rc = Some r).
 Proof. intros i c b f rc. exact (terminates_lemma i c b f (fun _ => True) rc). Qed.
 Print Assumptions coverer_terminates.
+
+(** FINDING on the unchanged tree (KNOWN_FINDINGS.jsonl, kind
+    "FastCovering(default-coverer-fallback).levels"): the full-strength statement "FastCovering
+    honours MinLevel and LevelMod" is FALSE of the faithful model.  normalizeCovering's "very large
+    covering" branch covers with NewRegionCoverer() defaults.  The witness below was observed on the
+    Go code (cap of radius 6.96e-6 rad, RegionCoverer{MinLevel:10, MaxLevel:24, LevelMod:3,
+    MaxCells:-2600}); [refute_cubound] is the CellUnionBound the Go code computed for the nested call. *)
+Theorem fast_covering_levels_refuted :
+  ValidB refute_bound /\ all_valid refute_cubound /\
+  exists r c, FastCovering refute_bound (cu_fallback (fun _ => refute_cubound)) refute_opts = Some r /\
+    In c r /\ valid c /\ (s2_CellID_Level c - clampMinLevel refute_opts) mod clampLevelMod refute_opts <> 0.
+Proof. exact fast_levels_refuted_lemma. Qed.
+Print Assumptions fast_covering_levels_refuted.
+
+(** Second sentence of the property, for the regions whose predicates are id-range logic:
+    s2.Cell (ContainsCell = CellID.Contains, IntersectsCell = CellID.Intersects, translated functions)
+    and normalized s2.CellUnion (binary search of ContainsCellID / IntersectsCellID).
+    A cell reported as contained has all its leaves in the region; a cell sharing a leaf with the
+    region is reported as intersecting. *)
+Theorem cell_region_predicates_safe : forall a c, valid a -> valid c ->
+  (s2_CellID_Contains a c = true -> forall x, leaf_in x c -> leaf_in x a) /\
+  ((exists x, leaf_in x c /\ leaf_in x a) -> s2_CellID_Intersects a c = true).
+Proof. intros a c Va Vc. split; [exact (cell_contains_sound a c Va Vc)|exact (cell_intersects_sound a c Va Vc)]. Qed.
+Print Assumptions cell_region_predicates_safe.
+
+Theorem cellunion_region_predicates_safe : forall l c, all_valid l -> normal l -> valid c ->
+  (cu_ContainsCellID l c = true -> forall x, leaf_in x c -> covered l x) /\
+  ((exists x, leaf_in x c /\ covered l x) -> cu_IntersectsCellID l c = true).
+Proof. intros l c Vl Nl Vc. split; [exact (cu_contains_sound l Vl Nl c Vc)|exact (cu_intersects_sound l Vl Nl c Vc)]. Qed.
+Print Assumptions cellunion_region_predicates_safe.
+
+(* TODO (not proved; covered by the observer's search on every run):
+   - FallbackOK for [cu_fallback cubound] (the nested NewRegionCoverer().Covering(&covering) of
+     normalizeCovering's "very large covering" branch): follows from covering_covers /
+     coverer_terminates / levels_ok applied to the cell union as a region (its predicates are safe by
+     cellunion_region_predicates_safe) plus "the result is not deeper than the deepest cell of the
+     union", which needs completeness of cu_ContainsCellID; the branch is reached only when
+     (len - MaxCells) * len > 10000, i.e. for bounds of more than 100 cells or MaxCells < -2400.
+   - SoundI / SoundC / SoundB for s2.Cap, s2.Rect, s2.Loop, s2.Polygon, s2.Polyline, s2.Point:
+     floating-point geometry, carried as H-CAPARITH, H-LATBOUND, H-CLIP, H-JORDAN (DESIGN.md section 4).
+   - FastCovering's own level limits ("all of the usual parameters are respected") outside the
+     refuted branch: checked by the observer only. *)
 
 (** The hypotheses are satisfiable: the region consisting of face cell 0 (all its leaves), with exact
     predicates computed from id ranges, the face as its own bound and an identity fallback. *)
